@@ -35,6 +35,11 @@ def real_replay(lang, prefix_chain, chain):
     texts.append(base)
     texts.append(base + " {\n}\n")
     texts.append("class A {\n" + base + "\n}\n")
+    # contexts in which a lexer classifies a keyword-like word as a plain name (object keys, member access)
+    texts.append("call({" + base + ": 1, r: 3})")
+    texts.append("x = {" + base + ": true}")
+    texts.append("obj." + base)
+    texts.append("@" + base)
     for text in texts:
         toks = lex(get_lexer_by_name(capture.LEXER_FOR[lang]), text, False)
         try:
